@@ -103,7 +103,12 @@ def configs(tier, seed=0):
             its = iters_set
             if quick and (n >= 8 or len(ts) >= 2):
               its = [0, 1] if (bi % 2 == 0) else [3]
+            if not quick and n == 8:
+              its = [0, 1, 10] if (bi % 2 == 0) else [2, 50]
             if not quick and n >= 12:
+              # 3^12 kernels per configuration: strict families only, two bound modes
+              if comp is not None or bi not in (0, 3) or len(ts) > 2:
+                continue
               its = [0, 2]
             for it in its:
               cfg = dict(sizes=list(sizes), mono=list(mono),
